@@ -89,6 +89,19 @@ fn c10_fr(rng: &mut Rng, rounds: usize) {
         (BigUint::from(1u8) << 256usize) % &q,
         ((BigUint::from(1u8) << 256usize) % &q).pow(2) % &q,
     ];
+    // values whose MONTGOMERY representation (v * 2^256 mod q) has special limb patterns: a single
+    // non-zero limb, zero low limbs, all-ones limbs.  v = pattern * R^-1 mod q.
+    let rinv = (BigUint::from(1u8) << 256usize).modpow(&(&q - &two), &q);
+    for pos in 0..4usize {
+        for k in [1u64, 2, 0x8000_0000_0000_0000, u64::MAX, 0x0e7d_b4ea_6533_afa8] {
+            let pat = BigUint::from(k) << (64 * pos);
+            if pat < q {
+                vals.push((&pat * &rinv) % &q);
+            }
+        }
+    }
+    vals.push(((BigUint::from(u64::MAX) << 64usize) + BigUint::from(u64::MAX)) * &rinv % &q);
+    vals.push((((BigUint::from(1u8) << 192usize) - &one) * &rinv) % &q);
     for _ in 0..rounds {
         let mut b = [0u8; 64];
         rng.fill_bytes(&mut b);
